@@ -14,9 +14,26 @@ FAMILY = dict(
 KIND = {0: "00", 1: "01", 2: "02"}
 
 
+def all_sections_answered(case):
+    """the script is one where every gathered section is answered validly: no malformed datagram, and a silence only
+    where the client's listening for further rules datagrams ends (right after a rules datagram)"""
+    for ds in case.script:
+        if ds == "X":
+            return False
+        for i, d in enumerate(ds):
+            if d is not None and len(d) < 5:
+                return False
+            if d is None and (i == 0 or ds[i - 1] is None or len(ds[i - 1]) < 5 or ds[i - 1][4] != 1):
+                return False
+    return True
+
+
 def fragment_groups(case):
-    """C08: [(conn, start, count)] of consecutive datagrams of one list reply (same kind byte 1 = rules, 2 = players)"""
+    """C08: [(conn, start, count)] of consecutive datagrams of one list reply (same kind byte 1 = rules, 2 = players);
+    only for scripts in which every gathered section is answered (C08 is about answered requests)"""
     groups = []
+    if not all_sections_answered(case):
+        return groups
     for ci, ds in enumerate(case.script):
         if ds == "X":
             continue
@@ -58,8 +75,7 @@ def c10_eligible(valid):
         return False
     if "s" in valid.line.split(" ")[2 + FAMILY["gather"]]:
         return False
-    sent = valid.sent()
-    return sent == ["7900000000", "7900000001", "7900000002"]
+    return valid.sent() == ["7900000000", "7900000001", "7900000002"] and all_sections_answered(valid.case())
 
 
 def c10_units(valid):
